@@ -86,9 +86,10 @@ Universe == <<"WAPProtocol", "GeminiProtocol", "HTTPProtocol", "HTTPSProtocol", 
               "GopherPlusProtocol", "SecureGopherPlusProtocol", "GopherProtocol", "SecureGopherProtocol",
               "EnhancedGopherProtocol", "URLGopherPlus">>
 Protocols == {Universe[i] : i \in 1..Len(Universe)}
-\* TLS protocols, by documentation: Gemini is TLS-only (gemini://geminiprotocol.net/docs/protocol-specification.gmi
-\* section 4 "TLS"; conf/pygopherd.conf: "the gemini protocol *requires* the TLS section"); HTTPS and the
-\* Secure* classes are the TLS twins of the plaintext classes (CHANGELOG 3.0.0 "TLS support").
+\* TLS protocols, by documentation - CHANGELOG.md (v3.0.0b2, "Several protocols which take advantage of the new TLS
+\* connections"): rfc1436.SecureGopherProtocol (gopher + TLS), gopherp.SecureGopherPlusProtocol (gopher plus + TLS),
+\* http.HTTPSProtocol (http + TLS), gemini.GeminiProtocol; conf/pygopherd.conf: "the gemini protocol *requires* the
+\* TLS section".  Everything else is a plaintext protocol.
 SecureProtocols == {"GeminiProtocol", "HTTPSProtocol", "SecureGopherPlusProtocol", "SecureGopherProtocol"}
 Secure(p) == p \in SecureProtocols
 
